@@ -216,7 +216,13 @@ pub fn run_case(em: &mut Emit, c: &BodyCase, predf: &dyn Fn(&BodyCase, &Ran) -> 
             return;
         }
     };
-    let p = predf(c, &ran);
+    // whatever the property: polling a body never panics, at any poll (not only up to the first
+    // terminal event)
+    let p = if ran.recs.iter().any(|r| r.out == Out::Panic) {
+        "FAIL:panic while polling the body".to_string()
+    } else {
+        predf(c, &ran)
+    };
     let once = matches!(ran.o.plan, Plan::Once(_));
     let multi = matches!(ran.o.plan, Plan::Multipart(..));
     let outcome = ran
@@ -735,6 +741,15 @@ pub fn honest_cases(rng: &mut Rng, thorough: bool) -> Vec<BodyCase> {
     v
 }
 
+/// Keeps about one case in `k`, chosen by a hash of the index: a fixed stride falls into step
+/// with the nested loops that build the case lists and can drop a whole kind of case.
+fn thin(i: usize, k: u64) -> bool {
+    let mut z = (i as u64).wrapping_add(0x9E3779B97F4A7C15);
+    z = (z ^ (z >> 30)).wrapping_mul(0xBF58476D1CE4E5B9);
+    z = (z ^ (z >> 27)).wrapping_mul(0x94D049BB133111EB);
+    (z ^ (z >> 31)) % k == 0
+}
+
 /// Cuts every script after its first error: a stream that stays failed once it has failed (the
 /// proviso of C20, and the "failing stream" of C07).
 pub fn stay_failed(scripts: &mut [Vec<Ev>]) {
@@ -899,10 +914,10 @@ pub fn c01(em: &mut Emit, thorough: bool, seed: u64) {
         run_case(em, &c, &pred_c01);
     }
     // "no body ever delivers more than was announced" also under faults
-    for c in fault_cases(&mut rng, false).into_iter().step_by(3) {
+    for c in fault_cases(&mut rng, false).into_iter().enumerate().filter(|(i, _)| thin(*i, 3)).map(|(_, c)| c) {
         run_case(em, &c, &pred_c01);
     }
-    for c in transient_cases().into_iter().step_by(2) {
+    for c in transient_cases().into_iter().enumerate().filter(|(i, _)| thin(*i, 2)).map(|(_, c)| c) {
         run_case(em, &c, &pred_c01);
     }
     // multipart bodies around 2^64 bytes: the announced length is the layout's, or the answer is 413
@@ -1032,7 +1047,8 @@ pub fn c06(em: &mut Emit, thorough: bool, seed: u64) {
                 )
             })
             .collect();
-        let k = 2 + rng.usize(7);
+        // (now and then a request with very many parts)
+        let k = if i % 97 == 96 { *rng.pick(&[64usize, 65, 130, 300]) } else { 2 + rng.usize(7) };
         // ranges: overlapping, adjacent, duplicated, out of order; short so they can be drained,
         // positioned anywhere including the very end (digit widths up to 20)
         let mut anchors: Vec<u64> = vec![0, 1, 9, 10, 99, 100, len / 2, len - 50, len - 10, len - 1];
@@ -1195,7 +1211,7 @@ pub fn c07(em: &mut Emit, thorough: bool, seed: u64) {
         run_case(em, &c, &pred_c07);
     }
     // and the honest twin of every shape so that "fault => error" is not vacuous
-    for c in honest_cases(&mut rng, false).into_iter().step_by(5) {
+    for c in honest_cases(&mut rng, false).into_iter().enumerate().filter(|(i, _)| thin(*i, 5)).map(|(_, c)| c) {
         run_case(em, &c, &pred_c07);
     }
 }
@@ -1268,7 +1284,7 @@ pub fn c12_serve(em: &mut Emit, thorough: bool, seed: u64) {
     for c in honest_cases(&mut rng, thorough) {
         run_case(em, &c, &pred_c12);
     }
-    for c in fault_cases(&mut rng, false).into_iter().step_by(2) {
+    for c in fault_cases(&mut rng, false).into_iter().enumerate().filter(|(i, _)| thin(*i, 2)).map(|(_, c)| c) {
         run_case(em, &c, &pred_c12);
     }
     for c in transient_cases() {
@@ -1297,7 +1313,7 @@ pub fn c20_serve(em: &mut Emit, thorough: bool, seed: u64) {
         c.polls += 4;
         run_case(em, &c, &pred_c20);
     }
-    for mut c in honest_cases(&mut rng, false).into_iter().step_by(3) {
+    for mut c in honest_cases(&mut rng, false).into_iter().enumerate().filter(|(i, _)| thin(*i, 3)).map(|(_, c)| c) {
         c.polls += 4;
         run_case(em, &c, &pred_c20);
     }
